@@ -121,10 +121,25 @@ reg('C03',
     deadline={'quick': 100, 'thorough': 1500},
     level=MC,
     technique='bounded-exhaustive enumeration of (pattern, header) pairs on the real matcher (ASan), compared with an independent reference matcher, plus the public SCPI_Input path',
-    rule={'quick': 'patterns: all 1248 patterns of 1..4 keywords taken in order from {ABcd, EFgh, IJ, KLMno}, each keyword optional and/or numeric, with/without ?, plus 44 shipped/common patterns. headers per pattern: (A) every sequence of <= 3 mnemonics over {short, long, long+letter, short+"1"} of each keyword plus an alien mnemonic x colon x ? x 2 cases; (B) every keyword subset / alien insertion / adjacent swap spelled (up to 4 mnemonics) with every combination of 5 forms per mnemonic x colon x ? x 3 cases; an eighth of the patterns additionally through SCPI_Input -> handler -> SCPI_CommandNumbers. non-trivial = header the reference accepts',
+    rule={'quick': 'patterns: all 1248 patterns of 1..4 keywords taken in order from {ABcd, EFgh, IJ, KLMno}, each keyword optional and/or numeric, with/without ?, plus 44 shipped/common patterns. headers per pattern: (A) every sequence of <= 3 mnemonics over {short, long, long-letter, short+"1"} of each keyword plus an alien mnemonic x colon x ? x 2 cases; (B) every keyword subset / alien insertion / adjacent swap spelled (up to 4 mnemonics) with every combination of 5 forms per mnemonic x colon x ? x 3 cases; an eighth of the patterns additionally through SCPI_Input -> handler -> SCPI_CommandNumbers. non-trivial = header the reference accepts',
           'thorough': 'as quick with <= 5 (4 for 4-keyword patterns) mnemonics in (A), 8 forms and up to 5 mnemonics in (B) and every pattern through SCPI_Input'},
     assumptions=['vocabulary keywords have pairwise distinct short and long forms, which guarantees the statement\'s unambiguity side condition',
                  'numeric suffixes are decimal digit strings (the lexer admits nothing else inside a mnemonic)'],
     level_text='Exhaustive over the stated pattern and header sets: any accept/reject disagreement with the reference language, any wrong or missing numeric suffix (including defaults for skipped keywords), and any read outside the header are reported.',
     level_note='matchCommand is a private (LOCAL) function called by name, as in the repository tests; SCPI_Match / SCPI_CommandNumbers cover the public path',
     design_ref='DESIGN.md section 3 / C03')
+
+reg('C02',
+    title='each message unit runs exactly the first command matching its effective header',
+    src='c02_dispatch.c',
+    configs={'quick': ['def'], 'thorough': ['def', 'noinfo']},
+    deadline={'quick': 100, 'thorough': 1500},
+    level=MC,
+    technique='bounded-exhaustive enumeration of (command table, message) pairs executed through SCPI_Input (ASan, tail-poisoned input buffer), compared with a reference interpreter of the header-path and first-match rules',
+    rule={'quick': 'command tables: every ordered pair (90) and triple (720) of a pool of 10 overlapping patterns plus the whole pool in two orders; messages: every sequence of 1..3 units (1..2 for triples) over 24 header spellings (short/long, letter case, leading colon, optional keyword present/absent, numeric suffix, common, undefined with and without colons) x 2 separator styles; non-trivial = every message (each is compared unit by unit with the reference trace)',
+          'thorough': 'as quick with 1..4 units (1..3 for triples), additionally in the no-info build'},
+    assumptions=['after a common (*) command the next unit uses its header as written, as the statement says',
+                 'the -113 text only has to contain the header as written'],
+    level_text='Exhaustive over the stated tables and messages: wrong entry, wrong effective header, handler run twice/not at all, missing or spurious -113, and disagreement of SCPI_CmdTag / SCPI_IsCmd / SCPI_CommandNumbers with the model are reported.',
+    level_note='units carry no parameters here (C05 covers parameters)',
+    design_ref='DESIGN.md section 3 / C02')
